@@ -368,6 +368,11 @@ func Plan(prop, tier string, seed uint64) []RunConfig {
 					if r.Intn(5) == 0 {
 						genCarrier(&c, r, false)
 					}
+					if r.Intn(6) == 0 {
+						// another detection runs at the same time on its own source
+						c.Companion = detPrelude(w, r)
+						c.Companion[0].SameSource = false
+					}
 					out = append(out, c)
 				}
 			}
@@ -407,6 +412,10 @@ func Plan(prop, tier string, seed uint64) []RunConfig {
 					}
 					if k%4 == 2 {
 						genCarrier(&c, r, true)
+					}
+					if k%8 == 5 {
+						c.Companion = detPrelude(w, r)
+						c.Companion[0].SameSource = false
 					}
 					out = append(out, c)
 				}
@@ -582,6 +591,10 @@ func Plan(prop, tier string, seed uint64) []RunConfig {
 						Fault: FaultSpec{Kind: "none"}, Runners: sc.spec, ReadYield: ry, Note: sc.name}
 					if r.Intn(6) == 0 {
 						c.Prelude = detPrelude(w, r)
+					}
+					if r.Intn(8) == 0 {
+						c.Companion = detPrelude(w, r)
+						c.Companion[0].SameSource = false
 					}
 					if r.Intn(4) == 0 {
 						// whatever read sizes an in-memory reader, a file or a pipe
